@@ -15,6 +15,8 @@ def _init():
     _mods.update(ui=ui, python=python, cpp=cpp, common=common, runtime=runtime, exceptions=exceptions)
     # the library prints diagnostics on some paths; keep worker stdout quiet
     sys.stdout = open(os.devnull, "w")
+    import warnings
+    warnings.simplefilter("ignore")
 
 
 class _Timeout(Exception):
